@@ -153,9 +153,10 @@ pub fn start_fsm_with_data_and_finish_mode(
     {
         let mut gc = global_data.lock().unwrap();
         gc.actions = actions;
-        let executor_state_lock = executor.state.lock();
-        let guard = executor_state_lock.unwrap();
-        for p in &guard.processors {
+        // Don't hold the executor state while locking a processor: a processor that sends to
+        // a session holds its own lock while it locks the executor state (lock order inversion).
+        let processors = executor.state.lock().unwrap().processors.clone();
+        for p in &processors {
             let pg = p.lock().unwrap();
             for t in pg.get_types() {
                 gc.io_processors.insert(t.to_string(), p.clone());
